@@ -116,7 +116,7 @@ Proof.
 Qed.
 
 Lemma ranges_ok_ents : forall suf pre cur, (cur <= sumn pre)%nat ->
-  ranges_ok (pre ++ suf) cur (ents (List.length pre) suf) = true.
+  ranges_ok (pre ++ suf) cur false (ents (List.length pre) suf) = true.
 Proof.
   induction suf as [|x suf IH]; intros pre cur H; cbn [ents ranges_ok]; [reflexivity|].
   rewrite stage_app_len, nth_middle, app_length. cbn [List.length].
@@ -132,14 +132,14 @@ Proof.
 Qed.
 
 Lemma ranges_ok_suffix : forall pre l suf off, (off < l)%nat ->
-  ranges_ok (pre ++ l :: suf) (sumn pre + off) (suffix (List.length pre) off l suf) = true.
+  ranges_ok (pre ++ l :: suf) (sumn pre + off) true (suffix (List.length pre) off l suf) = true.
 Proof.
   intros pre l suf off H. unfold suffix. cbn [ranges_ok].
   rewrite stage_app_len, nth_middle, app_length. cbn [List.length].
   assert (E1 : (List.length pre <? List.length pre + S (List.length suf))%nat = true) by lia.
   assert (E2 : (off + (l - off) <=? l)%nat = true) by lia.
   assert (E3 : (l - off =? 0)%nat = false) by lia.
-  assert (E4 : (sumn pre + off <=? sumn pre + off)%nat = true) by lia.
+  assert (E4 : (sumn pre + off =? sumn pre + off)%nat = true) by lia.
   rewrite E1, E2, E3, E4. cbn [andb].
   replace (pre ++ l :: suf) with ((pre ++ [l]) ++ suf) by (rewrite <- app_assoc; reflexivity).
   replace (S (List.length pre)) with (List.length (pre ++ [l])) by (rewrite app_length; cbn; lia).
